@@ -478,6 +478,53 @@ func genImmediate(rng *lib.Rand, n int) []string {
 	return toks
 }
 
+// exhaustive: every sequence of the given depth over a small alphabet of calls and packets (two MACs on
+// one IPv4 address, one offer); W tokens are inserted after every StartHunt that starts a loop
+func genExhaustive(depth int, emit func([]string)) {
+	m1, m2 := macs[0], macs[1]
+	alpha := []string{
+		"S," + m1 + "," + ipA, "S," + m2 + "," + ipA, "T," + m1, "T," + m2, "C",
+		"R,1," + m1 + "," + m1 + "," + ipA + ",000000000000," + ipRouter,
+		"R,1," + m2 + "," + m2 + "," + ipB + ",000000000000," + ipRouter,
+		"O," + m1 + "," + ipA,
+		"R,1," + m1 + "," + m1 + "," + ipZero + ",000000000000," + ipB,
+	}
+	idx := make([]int, depth)
+	for {
+		var toks []string
+		hunted := map[string]bool{}
+		nloops := 0
+		for _, k := range idx {
+			t := alpha[k]
+			toks = append(toks, t)
+			f := strings.Split(t, ",")
+			switch f[0] {
+			case "S":
+				if !hunted[f[1]] {
+					hunted[f[1]] = true
+					toks = append(toks, "W,"+strconv.Itoa(nloops)+",000000000000")
+					nloops++
+				}
+			case "T":
+				delete(hunted, f[1])
+			}
+		}
+		emit(toks)
+		i := depth - 1
+		for i >= 0 {
+			idx[i]++
+			if idx[i] < len(alpha) {
+				break
+			}
+			idx[i] = 0
+			i--
+		}
+		if i < 0 {
+			return
+		}
+	}
+}
+
 // runCase executes a script and records it (tokens with the observed hints, "@" tokens kept).
 func runCase(r *lib.Run, script []string, tries int) result {
 	var res result
@@ -797,6 +844,11 @@ func main() {
 			ct = alts[(i/4)%len(alts)].tok()
 		}
 		jobs <- append([]string{ct}, genImmediate(rng.Fork(), n)...)
+	}
+	if r.Thorough() {
+		genExhaustive(4, func(toks []string) { jobs <- append([]string{std}, toks...) })
+	} else {
+		genExhaustive(2, func(toks []string) { jobs <- append([]string{std}, toks...) })
 	}
 	close(jobs)
 	wg2.Wait()
